@@ -396,6 +396,8 @@ class CookieJar(AbstractCookieJar):
                     cookie["max-age"] = max_age = ""
 
             if max_age:
+                # (clamped first: an int of hundreds of digits cannot be added to a float)
+                delta_seconds = max(min(delta_seconds, self.MAX_TIME), -self.MAX_TIME)
                 max_age_expiration = min(time.time() + delta_seconds, self.MAX_TIME)
                 self._expire_cookie(max_age_expiration, domain, path, name)
 
